@@ -396,7 +396,59 @@ def gen_C10():
     return [lean_def("hist_mask", [("pev", "Rat"), ("thr", "Rat"), ("v", "Rat")], "Rat", "  " + tr.expr(wheres[0]))]
 
 
-GENERATORS = {"C06": gen_C06, "C07": gen_C07, "C10": gen_C10, "C14": gen_C14, "C18": gen_C18, "C20": gen_C20}
+def gen_C12():
+    """every source of randomness reachable from an estimate run, with whether it is seeded from a setting; AGGREGATE_ORDER"""
+    files = ["client.py", "models/BaseElectionModel.py", "models/ConformalElectionModel.py", "models/NonparametricElectionModel.py",
+             "models/GaussianElectionModel.py", "models/BootstrapElectionModel.py", "distributions/GaussianModel.py",
+             "utils/math_utils.py", "handlers/data/CombinedData.py", "handlers/data/Featurizer.py", "handlers/data/Estimandizer.py",
+             "handlers/data/ModelResults.py"]
+    sites = []
+    for rel in files:
+        src, tree = _parse(rel)
+        for n in ast.walk(tree):
+            if not isinstance(n, ast.Call):
+                continue
+            f = ast.unparse(n.func)
+            kws = {k.arg: ast.unparse(k.value) for k in n.keywords if k.arg}
+            kind = None
+            if f.endswith(".sample") and ("frac" in kws or "n" in kws):
+                kind = "DataFrame.sample"
+            elif f == "bootstrap" or f.endswith(".bootstrap"):
+                kind = "scipy.stats.bootstrap"
+            elif f in ("np.random.default_rng", "default_rng"):
+                kind = "default_rng"
+            elif f.startswith("np.random.") or f.startswith("random."):
+                kind = f
+            if kind is None:
+                continue
+            if kind == "default_rng":
+                seed = kws.get("seed") or (ast.unparse(n.args[0]) if n.args else None)
+            else:
+                seed = kws.get("random_state") or kws.get("seed") or kws.get("rng")
+            seeded = seed is not None and seed != "None"
+            sites.append((f"{rel}:{kind}", seeded, seed or ""))
+    src, tree = _parse("utils/constants.py")
+    order = None
+    for n in tree.body:
+        if isinstance(n, ast.Assign) and ast.unparse(n.targets[0]) == "AGGREGATE_ORDER" and isinstance(n.value, ast.List):
+            order = [e.value for e in n.value.elts]
+    if order is None:
+        raise TranslateError("AGGREGATE_ORDER")
+    # the module-level generator pattern: a generator created outside any function
+    module_level = []
+    for rel in files:
+        src, tree = _parse(rel)
+        for n in tree.body:
+            if isinstance(n, (ast.Assign, ast.Expr)) and any(isinstance(c, ast.Call) and "random" in ast.unparse(c.func) for c in ast.walk(n)):
+                module_level.append(rel)
+    out = ["def random_sites : List (String × Bool) := [" + ", ".join(f'("{a}", {"true" if b else "false"})' for a, b, _ in sites) + "]\n",
+           "def seed_expressions : List String := [" + ", ".join('"' + c.replace('"', "'") + '"' for _, _, c in sites) + "]\n",
+           "def module_level_generators : List String := [" + ", ".join(f'"{m}"' for m in module_level) + "]\n",
+           "def aggregate_order : List String := [" + ", ".join(f'"{o}"' for o in order) + "]\n"]
+    return out
+
+
+GENERATORS = {"C06": gen_C06, "C07": gen_C07, "C10": gen_C10, "C12": gen_C12, "C14": gen_C14, "C18": gen_C18, "C20": gen_C20}
 
 HEADER = """import ElexModel.Core.Num
 /-! GENERATED by harness/extract.py from /repo/src on every check run. Do not edit. -/
